@@ -95,6 +95,14 @@ type item struct {
 	N    int    `json:"n"`
 }
 
+// TouchGroupMemory reads and writes the unsynchronised memory of a group. It is a named function so
+// that a race report on it (two callbacks of one group without happens-before) can be recognised.
+func TouchGroupMemory(mem map[string]*int, g string) {
+	if p := mem[g]; p != nil {
+		*p = *p + 1
+	}
+}
+
 // ChildMain runs the concurrent program; it is only meaningful in the -race binary.
 func ChildMain(seed int64, rounds int) {
 	rng := rand.New(rand.NewSource(seed))
@@ -136,11 +144,7 @@ func oneRound(seed int64, db *badger.DB, round int) {
 	for _, g := range []string{"test.r.a", "test.r.b", "grp.x", "grp.y", "shared"} {
 		mem[g] = new(int)
 	}
-	touch := func(g string) {
-		if p := mem[g]; p != nil {
-			*p = *p + 1
-		}
-	}
+	touch := func(g string) { TouchGroupMemory(mem, g) }
 	ms := mockstore.NewStore()
 	ms.Add("test.ms.1", map[string]interface{}{"n": 1})
 	bs := badgerstore.NewStore(db).SetType(item{}).SetPrefix(fmt.Sprintf("r%d", round))
@@ -236,7 +240,16 @@ func oneRound(seed int64, db *badger.DB, round int) {
 		goer(func(r *rand.Rand) {
 			for i := 0; i < 80; i++ {
 				n := names[r.Intn(5)]
-				switch r.Intn(3) {
+				switch r.Intn(4) {
+				case 3:
+					// a callback that stays inside its group for a while (Shutdown and query expiry overlap it)
+					pause := time.Duration(500+r.Intn(2500)) * time.Microsecond
+					s.With(n, func(rs res.Resource) {
+						g := rs.Group()
+						touch(g)
+						time.Sleep(pause)
+						touch(g)
+					})
 				case 0:
 					s.With(n, func(rs res.Resource) { touch(rs.Group()) })
 				case 1:
@@ -396,30 +409,49 @@ func Run(c *core.Ctx) {
 	c.Sample(map[string]interface{}{"seed": outs[0].seed, "rounds": rounds, "output_tail": tail(outs[0].out, 300)})
 }
 
-// raceSite returns "file:line <-> file:line" of the two top go-res frames of a report, or "".
-var reFrame = regexp.MustCompile(`(/repo/[^\s:]+:\d+)`)
+// raceSite names the two access sites of a report when the race concerns go-res: an access site is
+// the first frame of an access stack that is not in the Go runtime / standard library; the report
+// counts when a site is inside go-res, or is the harness' TouchGroupMemory (user memory that only
+// callbacks of one group touch - a race there means the library did not order those callbacks).
+var reFrameFile = regexp.MustCompile(`^\s+(/\S+):(\d+)`)
 
 func raceSite(blk string) string {
-	parts := regexp.MustCompile(`(?m)^(?:Previous |)(?:[Rr]ead|[Ww]rite|atomic [a-z]+) (?:at|by) .*$`).FindAllStringIndex(blk, -1)
-	var tops []string
-	for i, p := range parts {
-		end := len(blk)
-		if i+1 < len(parts) {
-			end = parts[i+1][0]
+	lines := strings.Split(blk, "\n")
+	var sites []string
+	relevant := false
+	for i := 0; i < len(lines); i++ {
+		l := lines[i]
+		if !(strings.HasPrefix(l, "Read at") || strings.HasPrefix(l, "Write at") || strings.HasPrefix(l, "Previous read at") || strings.HasPrefix(l, "Previous write at") || strings.Contains(l, "atomic") && strings.Contains(l, " at 0x")) {
+			continue
 		}
-		seg := blk[p[0]:end]
-		if g := strings.Index(seg, "Goroutine "); g > 0 {
-			seg = seg[:g]
-		}
-		// first go-res frame of the access stack
-		if m := reFrame.FindString(seg); m != "" {
-			tops = append(tops, strings.TrimPrefix(m, "/repo/"))
+		// frames follow as pairs: function line, then "      file:line +0x.."
+		for j := i + 1; j+1 < len(lines) && strings.TrimSpace(lines[j]) != ""; j += 2 {
+			fn := strings.TrimSpace(lines[j])
+			m := reFrameFile.FindStringSubmatch(lines[j+1])
+			if m == nil {
+				break
+			}
+			file := m[1]
+			if strings.HasPrefix(file, "/usr/lib/go") || strings.Contains(file, "/go/pkg/mod/golang.org") {
+				continue
+			}
+			site := strings.TrimPrefix(file, "/repo/") + ":" + m[2]
+			if strings.HasPrefix(file, "/repo/") {
+				relevant = true
+			} else if strings.Contains(fn, "TouchGroupMemory") {
+				relevant = true
+				site = "user-group-memory"
+			} else {
+				site = "other:" + filepath.Base(file)
+			}
+			sites = append(sites, site)
+			break
 		}
 	}
-	if len(tops) == 0 {
+	if !relevant || len(sites) == 0 {
 		return ""
 	}
-	return strings.Join(tops, " <-> ")
+	return strings.Join(sites, " <-> ")
 }
 
 func tail(s string, n int) string {
